@@ -90,6 +90,10 @@ Inductive case :=
 | CaseDSMatch (k : dnskey) (dt : N) (want : list N) (o : oracle) (got lib : bool)
   (* VerifyDS(keyMap, set) = (unsupportedOnly, err == nil) vs the same decision taken with ToDS / library KeyTag *)
 | CaseVerifyDS (keymap : list (N * list dnskey)) (dss : list ds) (t : list oracle) (got ref : bool * bool)
+               (* which error VerifyDS returned (0 nil, 1 ErrMissingKSK, 2 ErrMismatchingDS, 3 ErrFailedToConvertKSK, 9 another);
+                  DSMatchedKeys(keyMap, set, nil) as its non-empty buckets by ascending tag; refm: the keys of each bucket
+                  for which the library's ToDS / KeyTag reproduce a supported DS of the set *)
+               (code : N) (matched refm : list (N * list dnskey))
   (* verifyOneSig(keys, set, sig) == nil; ref: some key of the list verifies under the library / math/big *)
 | CaseOneSig (keys : list (N * list dnskey)) (set : list rr) (s : rrsig) (valid_now : bool)
              (t : list oracle) (ecp : list (list N * bool)) (ev : list (list N * list N * bool))
@@ -120,6 +124,29 @@ Definition sum_eqb (a b : N + list N) : bool :=
   | _, _ => false
   end.
 Definition bb_eqb (a b : bool * bool) : bool := Bool.eqb (fst a) (fst b) && Bool.eqb (snd a) (snd b).
+Definition key_eqb (a b : dnskey) : bool :=
+  list_eqb (k_name a) (k_name b) && (k_class a =? k_class b) && (k_flags a =? k_flags b) && (k_proto a =? k_proto b)
+  && (k_alg a =? k_alg b) && list_eqb (k_pub a) (k_pub b).
+Fixpoint keys_eqb (a b : list dnskey) : bool :=
+  match a, b with
+  | [], [] => true
+  | x :: xs, y :: ys => key_eqb x y && keys_eqb xs ys
+  | _, _ => false
+  end.
+Fixpoint km_eqb (a b : list (N * list dnskey)) : bool :=
+  match a, b with
+  | [], [] => true
+  | x :: xs, y :: ys => (fst x =? fst y) && keys_eqb (snd x) (snd y) && km_eqb xs ys
+  | _, _ => false
+  end.
+(* the same buckets holding the same keys, in any order inside a bucket *)
+Definition keys_incl (a b : list dnskey) : bool := forallb (fun x => existsb (key_eqb x) b) a.
+Fixpoint km_same_sets (a b : list (N * list dnskey)) : bool :=
+  match a, b with
+  | [], [] => true
+  | x :: xs, y :: ys => (fst x =? fst y) && keys_incl (snd x) (snd y) && keys_incl (snd y) (snd x) && km_same_sets xs ys
+  | _, _ => false
+  end.
 
 Definition check_case (c : case) : bool :=
   match c with
@@ -148,7 +175,10 @@ Definition check_case (c : case) : bool :=
       let m := crypto_verify_pm powmod_fast (orc_H o) (orc_ECP o) (orc_ECV o) (orc_EDV o) orc_LIBV k s rrset in
       if verify_signature_supported (k_alg k) then m =? got else negb (got =? 0)
   | CaseDSMatch k dt want o got _ => Bool.eqb (ds_digest_matches (orc_H o) k dt want) got
-  | CaseVerifyDS keymap dss t got _ => bb_eqb (verify_ds (tbl_H t) keymap dss) got
+  | CaseVerifyDS keymap dss t got _ code matched _ =>
+      bb_eqb (verify_ds (tbl_H t) keymap dss) got
+      && (let r := verify_ds_code (tbl_H t) keymap dss in Bool.eqb (fst r) (fst got) && (snd r =? code))
+      && km_eqb (ds_matched_keys (tbl_H t) keymap dss) matched
   | CaseOneSig keys set s valid_now t ecp ev got _ _ =>
       Bool.eqb (verify_one_sig_pm powmod_fast (tbl_H t) (tbl_ECP ecp) (fun _ pub dg sg => negb (is_nil dg) && tbl_EV ev pub sg)
                                (fun pub msg sg => existsb (fun o => list_eqb msg (o_msg o)) t && tbl_EV ev pub sg)
@@ -306,7 +336,13 @@ Definition spec_case (c : case) : bool :=
       (* never accepts what ToDS does not produce; refuses what it produces only for digest type 5
          (SHA-512 in the library, GOST by IANA) and for a DNSKEY without key material *)
       implb' got lib && implb' (lib && negb (dt =? 5) && negb (is_nil (fst (b64_decode (k_pub k))))) got
-  | CaseVerifyDS _ _ _ got ref => bb_eqb got ref
+  | CaseVerifyDS _ _ _ got ref code matched refm =>
+      bb_eqb got ref
+      (* the error is one of the three documented ones, nil exactly on a match, "cannot convert" exactly when
+         nothing in the set is supported *)
+      && (code <=? 3) && Bool.eqb (code =? 0) (snd got) && Bool.eqb (code =? 3) (fst got)
+      (* DSMatchedKeys returns exactly the keys the reference vouches for, and some key exactly when VerifyDS succeeds *)
+      && km_same_sets matched refm && Bool.eqb (negb (is_nil matched)) (snd got)
   | CaseOneSig _ _ _ _ _ _ _ got ref eqdom =>
       implb' got ref && implb' eqdom (Bool.eqb got ref)
   | CaseMsg _ _ _ _ _ _ _ got ref eqdom =>
